@@ -52,6 +52,11 @@ def run(ctx):
                 ctx.fail('athlib.' + name, [s], 'a value (the code is accepted by check_event_code)', st, note='raises for a valid event code',
                          replay_py='import athlib.utils, athlib.athlon_score\nresult = %s(%r)' % ({'get_duration_event_time': 'athlib.utils.get_duration_event_time', 'unit_name': 'athlib.athlon_score.unit_name'}.get(name, 'athlib.' + name), s))
             if cmd == 'key':
+                if st == 'ok' and not (isinstance(v, tuple) and len(v) == 3 and all(isinstance(x, int) and not isinstance(x, bool) for x in v[:2])):
+                    ctx.fail('athlib.discipline_sort_key', [s], 'a key (family number, distance / order number, discipline) that sorts against every other key', repr(v),
+                             note='key malformed: a component that is not a number',
+                             replay_py='result = (athlib.discipline_sort_key(%r), sorted([athlib.discipline_sort_key(%r), athlib.discipline_sort_key("110H")]))' % (s, s))
+                    st = 'malformed'
                 e = 'ok %d %d' % (v[0], v[1]) if st == 'ok' else st
                 if st == 'ok':
                     keys[s] = v
